@@ -521,6 +521,7 @@ Record ccase := mkCCase {
   cc_fields : list val;            (* the six attributes of the original, in the order of [co_fields] *)
   cc_classes : table;
   cc_handlers : table;
+  cc_depth : nat;                  (* the "original" is itself the result of this many copy() calls *)
   cc_pre : list op;                (* applied to the original before copy() *)
   cc_ops : list (bool * op);       (* after copy(): true = applied to the copy, false = to the original *)
   cc_obs : list (cobs * cobs)      (* implementation: (original, copy) right after copy() and after each op *)
@@ -550,25 +551,35 @@ Fixpoint run_cops (h : heap) (a b : loc) (la1 la2 lb1 lb2 : loc) (os : list (boo
   | _, _ => None
   end.
 
+Fixpoint copy_chain (n : nat) (h : heap) (a : loc) : res (heap * loc) :=
+  match n with
+  | O => Ok (h, a)
+  | S k => do x <- config_copy h a; copy_chain k (fst x) (snd x)
+  end.
+
 Definition c13_cfg_check (c : ccase) : bool :=
   match ccase_heap c with
   | None => false
   | Some h0 =>
-      match apply_ops h0 2%nat (cc_pre c) with
+      match copy_chain (cc_depth c) h0 2%nat with
       | Raise _ => false
-      | Ok h1 =>
-          match config_copy h1 2%nat, get_cfg h1 2%nat with
-          | Ok (h2, b), Ok ra =>
-              match get_cfg h2 b with
-              | Ok rb =>
-                  match run_cops h2 2%nat b (c_classes ra) (c_handlers ra) (c_classes rb) (c_handlers rb) (cc_ops c) with
-                  | Some obs =>
-                      list_eqb (fun x y => cobs_eqb (fst x) (fst y) && cobs_eqb (snd x) (snd y)) obs (cc_obs c)
-                  | None => false
+      | Ok (h0', a) =>
+          match apply_ops h0' a (cc_pre c) with
+          | Raise _ => false
+          | Ok h1 =>
+              match config_copy h1 a, get_cfg h1 a with
+              | Ok (h2, b), Ok ra =>
+                  match get_cfg h2 b with
+                  | Ok rb =>
+                      match run_cops h2 a b (c_classes ra) (c_handlers ra) (c_classes rb) (c_handlers rb) (cc_ops c) with
+                      | Some obs =>
+                          list_eqb (fun x y => cobs_eqb (fst x) (fst y) && cobs_eqb (snd x) (snd y)) obs (cc_obs c)
+                      | None => false
+                      end
+                  | Raise _ => false
                   end
-              | Raise _ => false
+              | _, _ => false
               end
-          | _, _ => false
           end
       end
   end.
